@@ -2,9 +2,10 @@
 (***************************************************************************)
 (* Reference links and images (CommonMark 0.30, section 6.3 "reference     *)
 (* links", and the procedure "look for link or image" of the appendix),    *)
-(* without inline destinations (those are InlineLinks.tla / LinkSyntax.tla)*)
-(* and without emphasis.  The document defines one label, "a"; every other *)
-(* label is undefined.                                                     *)
+(* next to the plainest inline destination (the grammar of destinations    *)
+(* and titles is LinkSyntax.tla, brackets with emphasis InlineLinks.tla).  *)
+(* No emphasis.  The document defines one label, "a"; every other label  *)
+(* is undefined.                                                           *)
 (*   "[" pushes a link opener, "![" an image opener; at "]" the innermost  *)
 (*   opener is looked at: none -> literal; inactive -> removed, literal;   *)
 (*   else what follows decides the label that is looked up -               *)
@@ -28,8 +29,8 @@ rvars == <<txt, pos, br, out, phase>>
 At(i) == IF i >= 1 /\ i <= Len(txt) THEN txt[i] ELSE ""
 
 (* output tokens *)
-C(p)  == [k |-> "c", p |-> p]
-Mark(k) == [k |-> k, p |-> 0]           \* "la" <a>, "lz" </a>, "ia" <img alt=", "iz" " />
+C(p)  == [k |-> "c", p |-> p, d |-> ""]
+Mark(k, d) == [k |-> k, p |-> 0, d |-> d]           \* "la" <a>, "lz" </a>, "ia" <img alt=", "iz" " />; d = the destination as written in href / src
 
 (* a link label at q: "[", no bracket inside, "]"; its length or 0 *)
 LabelLen(q) ==
@@ -72,6 +73,21 @@ RefAt(t) ==
     IF n > 2 THEN [lab |-> SubSeq(txt, pos + 2, pos + n - 1), eat |-> n, ok |-> TRUE]
     ELSE IF ~HasBracket(inner) THEN [lab |-> inner, eat |-> n, ok |-> TRUE]
     ELSE [lab |-> << >>, eat |-> 0, ok |-> FALSE]
+(* an inline destination behind the closing bracket: "(", a run whose parentheses balance (the alphabets hold no space, so there is
+   no title), ")".  Position of the closing parenthesis or 0. *)
+RECURSIVE DestEnd(_, _)
+DestEnd(i, depth) == IF i > Len(txt) THEN 0
+                     ELSE IF txt[i] = "(" THEN DestEnd(i + 1, depth + 1)
+                     ELSE IF txt[i] = ")" THEN (IF depth = 0 THEN i ELSE DestEnd(i + 1, depth - 1))
+                     ELSE DestEnd(i + 1, depth)
+RECURSIVE HrefEnc(_)
+HrefEnc(sq) == IF sq = << >> THEN "" ELSE (CASE Head(sq) = "[" -> "%5B" [] Head(sq) = "]" -> "%5D" [] OTHER -> Head(sq)) \o HrefEnc(Tail(sq))
+(* how the closing bracket at pos resolves with opener t: inline link first, then the reference forms *)
+Res(t) ==
+    LET e == IF At(pos + 1) = "(" THEN DestEnd(pos + 2, 0) ELSE 0
+        r == RefAt(t) IN
+    IF e > 0 THEN [ok |-> TRUE, eat |-> e - pos, href |-> HrefEnc(SubSeq(txt, pos + 2, e - 1))]
+    ELSE [ok |-> r.ok /\ Defined(r.lab), eat |-> r.eat, href |-> "/u"]
 ScanCloseNone ==
     /\ phase = "scan" /\ pos <= Len(txt) /\ txt[pos] = "]" /\ br = << >>
     /\ Literal /\ UNCHANGED <<txt, br, phase>>
@@ -80,16 +96,16 @@ ScanCloseInactive ==
     /\ br' = Pop /\ Literal /\ UNCHANGED <<txt, phase>>
 ScanCloseMatch ==
     /\ phase = "scan" /\ pos <= Len(txt) /\ txt[pos] = "]" /\ br # << >> /\ Top.active
-    /\ LET t == Top r == RefAt(t) IN
-       /\ r.ok /\ Defined(r.lab)
-       /\ out' = SubSeq(out, 1, t.o - 1) \o <<Mark(IF t.img THEN "ia" ELSE "la")>>
-                 \o SubSeq(out, t.o + (IF t.img THEN 2 ELSE 1), Len(out)) \o <<Mark(IF t.img THEN "iz" ELSE "lz")>>
+    /\ LET t == Top r == Res(t) IN
+       /\ r.ok
+       /\ out' = SubSeq(out, 1, t.o - 1) \o <<Mark(IF t.img THEN "ia" ELSE "la", r.href)>>
+                 \o SubSeq(out, t.o + (IF t.img THEN 2 ELSE 1), Len(out)) \o <<Mark(IF t.img THEN "iz" ELSE "lz", "")>>
        /\ pos' = pos + 1 + r.eat
        /\ br' = IF t.img THEN Pop ELSE [i \in 1..(Len(br) - 1) |-> IF br[i].img THEN br[i] ELSE [br[i] EXCEPT !.active = FALSE]]
     /\ UNCHANGED <<txt, phase>>
 ScanCloseNoMatch ==
     /\ phase = "scan" /\ pos <= Len(txt) /\ txt[pos] = "]" /\ br # << >> /\ Top.active
-    /\ LET r == RefAt(Top) IN ~(r.ok /\ Defined(r.lab))
+    /\ ~Res(Top).ok
     /\ br' = Pop /\ Literal /\ UNCHANGED <<txt, phase>>
 Finish == /\ phase = "scan" /\ pos > Len(txt) /\ phase' = "done" /\ UNCHANGED <<txt, pos, br, out>>
 
@@ -127,9 +143,9 @@ Render(o, imgDepth) ==
     IF o = << >> THEN ""
     ELSE LET h == Head(o) IN
          (CASE h.k = "c"  -> txt[h.p]
-            [] h.k = "la" -> IF imgDepth = 0 THEN "<a href=\"/u\">" ELSE ""
+            [] h.k = "la" -> IF imgDepth = 0 THEN "<a href=\"" \o h.d \o "\">" ELSE ""
             [] h.k = "lz" -> IF imgDepth = 0 THEN "</a>" ELSE ""
-            [] h.k = "ia" -> IF imgDepth = 0 THEN "<img src=\"/u\" alt=\"" ELSE ""
+            [] h.k = "ia" -> IF imgDepth = 0 THEN "<img src=\"" \o h.d \o "\" alt=\"" ELSE ""
             [] OTHER      -> IF imgDepth = 1 THEN "\" />" ELSE "")
          \o Render(Tail(o), IF h.k = "ia" THEN imgDepth + 1 ELSE IF h.k = "iz" THEN imgDepth - 1 ELSE imgDepth)
 RECURSIVE Flat(_)
